@@ -540,3 +540,28 @@ func init() {
 		return 0
 	}
 }
+
+func init() {
+	// dbgwindow <scenario>: the in-flight window ladder of C03's cache variant for the final DAG of a scenario
+	checks["dbgwindow"] = func(args []string) int {
+		sc := sched.ScenarioByName(args[0])
+		x := sched.NewExec(sc, nil)
+		x.NoDigest = true
+		for _, a := range sc.Seed {
+			x.Step(a)
+		}
+		evs := dag.Harvest(x.C)
+		n := sc.Cfg.N
+		x.Close()
+		ref := dag.Run(evs, dag.RunOpts{N: n, CacheSize: 10000})
+		fmt.Println("events", len(evs), "ref err", ref.Err, "blocks", len(ref.BlockD))
+		for _, sz := range []int{400, 200, 120, 80, 60, 50, 40, 30, 25, 20, 15, 10, 7, 5} {
+			v := dag.Run(evs, dag.RunOpts{N: n, CacheSize: sz, Record: true})
+			fmt.Printf("cache %d: misses %d err %.80s blocks %d\n", sz, v.Misses, v.Err, len(v.BlockD))
+			if v.Misses > 0 || v.Err != "" {
+				break
+			}
+		}
+		return 0
+	}
+}
